@@ -32,11 +32,28 @@ DERIVES = ['ctor_Bits', 'ctor_BitArray', 'ctor_ConstBitStream', 'ctor_BitStream'
            'and_same', 'add_empty_left', 'add_empty_right', 'add_empty_left_literal', 'mul_one', 'lshift0', 'rshift0', 'and_ones', 'cut_whole',
            'split_nomatch', 'radd_empty_str', 'join_single_self_empty']
 ARRAY_DERIVES = ['arr_slice', 'arr_copy', 'arr_from_arr', 'arr_slice_step', 'arr_astype', 'arr_data_copy', 'arr_extend_into_new']
-SOURCE_KINDS = ['bytearray', 'memoryview', 'array', 'bitarray', 'bytesio', 'list']
+SOURCE_KINDS = ['bytearray', 'memoryview', 'array', 'bitarray', 'bytesio', 'list', 'memoryview_ro', 'memoryview_slice', 'memoryview_kw', 'memoryview_cast',
+                'array_H', 'bitarray_frozen_src', 'bitarray_buffer', 'bytearray_kw_window']
 POKES = ['append', 'prepend', 'insert', 'overwrite', 'invert', 'set', 'reverse', 'rol', 'ror', 'byteswap', 'replace', 'clear', '__setitem__', '__delitem__',
          '__iadd__', '__imul__', '__ilshift__', '__irshift__', '__iand__', '__ior__', '__ixor__', 'op_iadd', 'op_imul', 'op_iand', 'op_ior', 'op_ixor',
          'op_ilshift', 'op_irshift', 'setattr_uint', 'setattr_bin', 'setattr_hex', 'setattr_bits', 'setattr_bytes', 'setattr_int', 'delitem_stmt', 'setitem_stmt',
          'all_callables']
+
+# (dtype name, length or None, value): values chosen to hit special-case returns of the encoders (saturation, zero, specials)
+_F = [0.0, -0.0, 1.0, -1.5, 1e9, -1e9, 1e-30, float('inf'), float('-inf'), 100.0, -100.0, 0.5, 448.0, 57344.0, 6.0, 7.5, 28.0, 2.0 ** 127, 2.0 ** -127]
+RECIPES = ([(nm, None, v) for nm in ('mxint', 'e4m3mxfp', 'e5m2mxfp', 'e2m1mxfp', 'e2m3mxfp', 'e3m2mxfp', 'e8m0mxfp', 'p4binary', 'p3binary') for v in _F]
+           + [('float', n, v) for n in (16, 32, 64) for v in _F[:9]] + [('floatle', n, v) for n in (16, 32, 64) for v in _F[:5]]
+           + [('bfloat', None, v) for v in _F[:9] + [1e40, -1e40]] + [('bfloatle', None, v) for v in _F[:5]]
+           + [('uint', n, v) for n, v in ((1, 0), (1, 1), (2, 0), (8, 0), (8, 255), (8, 1), (16, 0), (64, 2 ** 64 - 1), (64, 0))]
+           + [('int', n, v) for n, v in ((1, 0), (1, -1), (8, 0), (8, -1), (8, -128), (8, 127), (64, -1))]
+           + [('uintle', 16, 0), ('uintle', 16, 1), ('intbe', 16, -1), ('uintne', 16, 0), ('intle', 8, -1)]
+           + [(nm, None, v) for nm in ('ue', 'uie') for v in (0, 1, 2, 3, 255)] + [(nm, None, v) for nm in ('se', 'sie') for v in (0, 1, -1, 2, -2, 127)]
+           + [('bool', None, True), ('bool', None, False)]
+           + [('hex', None, v) for v in ('', '0', 'f', '00', 'ff', 'a5a5')] + [('oct', None, v) for v in ('', '0', '7', '00')]
+           + [('bin', None, v) for v in ('', '0', '1', '00', '11', '01111111', '10000000')]
+           + [('bytes', None, v) for v in (b'', b'\x00', b'\xff', b'\x7f', b'\x80')]
+           + [('zeros', None, v) for v in (0, 1, 7, 8, 9, 64)])
+KW_VIAS = ['ctor', 'setter', 'pack', 'token', 'fromstring_token', 'dtype_build', 'ctor_named_len', 'array_item']
 
 
 class Entry:
@@ -57,6 +74,7 @@ class World:
         self.pool = []
         self.related_mutation = False
         self.log = []
+        self.recipe_first = {}
 
     # ------------------------------------------------------------------ bookkeeping
     def value(self, e):
@@ -107,6 +125,8 @@ class World:
             self.create(*s[1:])
         elif op == 'create_src':
             self.create_src(*s[1:])
+        elif op == 'create_kw':
+            self.create_kw(*s[1:])
         elif op == 'derive':
             self.derive(*s[1:])
         elif op == 'aderive':
@@ -137,10 +157,59 @@ class World:
         e = self.add(o, 'bs', cls)
         require(e.shadow == bits, 'created object has the wrong content', cls=cls, how=how)
 
+    def create_kw(self, cls, ri, via):
+        """build from a (dtype, length, value) recipe through one creation route; the same recipe must give the same bits every time in
+        this history, whatever was done to the objects built from it before"""
+        bs = self.bs
+        name, n, v = RECIPES[ri % len(RECIPES)]
+        c = cls_of(cls)
+        tok = name if n is None else f'{name}:{n}'
+        if isinstance(v, float):
+            txt = repr(v)
+        elif isinstance(v, bytes):
+            txt = None
+        else:
+            txt = str(v)
+
+        def build():
+            if name == 'zeros':
+                return c(v) if via != 'ctor_named_len' else c(length=v)
+            if via == 'setter' and cls in MUTABLE:
+                o = c() if n is None else c(n)
+                setattr(o, name, v)
+                return o
+            if via == 'pack':
+                return bs.pack(tok, v)
+            if via == 'token' and txt is not None and txt != '':
+                return c(f'{tok}={txt}')
+            if via == 'fromstring_token' and txt is not None and txt != '':
+                return c.fromstring(f'{tok}={txt}')
+            if via == 'dtype_build':
+                return bs.Dtype(name, n).build(v)
+            if via == 'ctor_named_len' and n is not None:
+                return c(**{f'{name}{n}': v})
+            if via == 'array_item' and name not in ('ue', 'se', 'uie', 'sie', 'hex', 'oct', 'bin', 'bytes', 'bool') :
+                a = bs.Array(bs.Dtype(name, n), [v])
+                return a
+            return c(**{name: v}) if n is None else c(**{name: v}, length=n)
+        o = attempt(build)
+        if is_raised(o):
+            return
+        if isinstance(o, bs.Array):
+            e = self.add(o, 'arr', 'Array')
+        else:
+            e = self.add(o, 'bs')
+        key = ri % len(RECIPES)
+        if key in self.recipe_first:
+            require(e.shadow == self.recipe_first[key][0], 'the same (dtype, length, value) built again in this history gives different bits',
+                    recipe=repr(RECIPES[key]), via=via, first=self.recipe_first[key], now=e.shadow)
+        else:
+            self.recipe_first[key] = (e.shadow, via)
+
     def create_src(self, kind, bits, cls):
         """external source kept alive + an object built from it"""
         import bitarray
-        bits = bits + '0' * (-len(bits) % 8) if kind != 'bitarray' and kind != 'list' else bits
+        bits = bits + '0' * (-len(bits) % 8) if kind not in ('bitarray', 'list') else bits
         c = cls_of(cls)
         if kind == 'bytearray':
             src = bytearray(to_bytes(bits))
@@ -148,6 +217,36 @@ class World:
         elif kind == 'memoryview':
             src = bytearray(to_bytes(bits))
             o = c(memoryview(src))
+        elif kind == 'memoryview_ro':
+            src = bytearray(to_bytes(bits))
+            o = c(memoryview(src).toreadonly())
+        elif kind == 'memoryview_slice':
+            src = bytearray(b'\x5a' + to_bytes(bits) + b'\xa5')
+            mv = memoryview(src)[1:-1]
+            o = c(mv.toreadonly() if len(bits) % 16 else mv)
+        elif kind == 'memoryview_kw':
+            src = bytearray(to_bytes(bits))
+            o = c(bytes=memoryview(src).toreadonly()) if len(bits) % 16 else c(bytes=memoryview(src))
+        elif kind == 'memoryview_cast':
+            src = array.array('B', to_bytes(bits))
+            o = c(memoryview(src).cast('B').toreadonly())
+        elif kind == 'bytearray_kw_window':
+            src = bytearray(b'\xff' + to_bytes(bits))
+            o = c(bytes=src, offset=8) if len(bits) % 16 else c(bytes=src, offset=8, length=len(bits))
+        elif kind == 'array_H':
+            bits = bits + '0' * (-len(bits) % 16)
+            src = array.array('H', to_bytes(bits))
+            o = c(src)
+            bits = o.bin   # element byte order is the platform's: only isolation is checked here
+        elif kind == 'bitarray_buffer':
+            backing = bytearray(to_bytes(bits))
+            src = bitarray.bitarray(buffer=backing, endian='big')
+            o = c(src) if len(bits) % 16 else c(bitarray=src)
+            self.add(backing, 'src', 'bytearray')
+        elif kind == 'bitarray_frozen_src':
+            src = bytearray(to_bytes(bits))
+            fb = bitarray.bitarray(buffer=memoryview(src).toreadonly(), endian='big')   # read-only bitarray over a buffer that can still change
+            o = c(fb) if len(bits) % 16 else c(bitarray=fb)
         elif kind == 'array':
             src = array.array('B', to_bytes(bits))
             o = c(src)
@@ -421,19 +520,19 @@ class World:
         kind = self.pool[i].cls
 
         def do():
-            if kind in ('bytearray', 'memoryview'):
+            if kind in ('bytearray', 'memoryview', 'memoryview_ro', 'memoryview_slice', 'memoryview_kw', 'bytearray_kw_window', 'bitarray_frozen_src'):
                 if a % 4 == 0:
                     src.extend(b'\xff')
                 elif a % 4 == 1 and len(src):
                     del src[0]
                 elif len(src):
                     src[b % len(src)] ^= 0xff
-            elif kind == 'array':
+            elif kind in ('array', 'array_H', 'memoryview_cast'):
                 if a % 3 == 0:
                     src.append(255)
                 elif len(src):
                     src[b % len(src)] ^= 0xff
-            elif kind == 'bitarray':
+            elif kind in ('bitarray', 'bitarray_buffer'):
                 m = a % 6
                 if m == 0:
                     src.invert()
@@ -545,7 +644,9 @@ def step_st(draw, focus):
     k = draw(st.integers(0, 99))
     if k < 14:
         return ['create', draw(cls_st), draw(small_bits), draw(st.sampled_from(['bin', 'literal', 'hexlit', 'fromstring', 'uint']))]
-    if k < 22:
+    if k < 18:
+        return ['create_kw', draw(cls_st), draw(st.integers(0, len(RECIPES) - 1)), draw(st.sampled_from(KW_VIAS))]
+    if k < 24:
         return ['create_src', draw(st.sampled_from(SOURCE_KINDS)), draw(small_bits), draw(cls_st)]
     if k < 50:
         return ['derive', draw(st.sampled_from(focus.get('derives', DERIVES))), draw(raw), draw(raw), draw(raw), draw(raw)]
@@ -629,6 +730,23 @@ def immutable_case(draw, tier):
 
 
 @st.composite
+def created_case(draw, tier):
+    """the same recipe built several times through different routes, mutations in between, then built again"""
+    ri = draw(st.integers(0, len(RECIPES) - 1))
+    steps = []
+    for _ in range(draw(st.integers(1, 3))):
+        steps.append(['create_kw', draw(cls_st), ri, draw(st.sampled_from(KW_VIAS))])
+    steps.append(['create_kw', draw(st.sampled_from(MUTABLE)), ri, draw(st.sampled_from(['setter', 'ctor', 'pack', 'setter']))])
+    for _ in range(draw(st.integers(1, 3))):
+        steps.append(['mutate', draw(st.sampled_from(MUTATORS)), draw(raw), draw(raw), draw(raw), draw(raw), draw(bits_st(max_len=12))])
+        if draw(st.integers(0, 3)) == 0:
+            steps.append(['mutate_arr', draw(raw), draw(raw), draw(raw)])
+    for _ in range(draw(st.integers(1, 2))):
+        steps.append(['create_kw', draw(cls_st), ri, draw(st.sampled_from(KW_VIAS))])
+    return {'steps': steps}
+
+
+@st.composite
 def array_case(draw, tier):
     steps = [['create', draw(cls_st), draw(bits_st(max_len=64, min_len=8)), 'bin'], ['derive', 'array_from', 0, 0, draw(raw), 0]]
     for _ in range(draw(st.integers(1, 8))):
@@ -648,6 +766,7 @@ SUBCHECKS = [
     Sub('C04.derive_then_mutate', run_history, strategy=pair_case, ambient=('bytealigned',), examples={'quick': 12000, 'thorough': 200000}),
     Sub('C04.external_source', run_history, strategy=source_case, ambient=('bytealigned',), examples={'quick': 5000, 'thorough': 60000}),
     Sub('C04.immutable_surface', run_history, strategy=immutable_case, ambient=('bytealigned',), examples={'quick': 4000, 'thorough': 50000}),
+    Sub('C04.created_values', run_history, strategy=created_case, ambient=('bytealigned',), examples={'quick': 6000, 'thorough': 80000}),
     Sub('C04.array', run_history, strategy=array_case, ambient=('bytealigned',), examples={'quick': 3000, 'thorough': 40000}),
     Sub('C04.history', run_history, strategy=history_st(), ambient=('bytealigned',), examples={'quick': 4000, 'thorough': 60000}),
 ]
